@@ -18,7 +18,7 @@ import tempfile
 
 import numpy as np
 
-from .core import Result
+from .core import Result, raised_by_code_under_test
 from .stubgen import StubGenerator
 
 F_OBS, F_ACT, F_REW, F_NOBS = 1, 2, 3, 4
@@ -57,6 +57,7 @@ class RefTask:
         self.maxp = 1.0
         self.last_batch = None  # tids of the most recent batch (starts)
         self.slots_upper = 0  # upper bound on ring slots consumed (sub buffers)
+        self.adds_since_sample = 0
 
     def retained(self):
         return self.order[-self.N:] if self.N > 0 else []
@@ -150,9 +151,9 @@ class BufferRun:
                 kk["rng"] = s.gen
             try:
                 outs.append(getattr(s.buf, name)(*a, **kk))
-            except API_ERRORS:
-                raise
             except Exception as e:  # the code under test failed an operation whose precondition holds
+                if not raised_by_code_under_test(e):
+                    raise
                 if (name == "sample_batch" and self.family == "sub" and not self.prio
                         and isinstance(e, ValueError) and "high" in str(e)):
                     # no admissible start: the generator was asked for integers(0, 0); vacuous
@@ -226,6 +227,7 @@ class BufferRun:
         if out is None:
             return
         t.order.append(tid)
+        t.adds_since_sample += 1
         t.slots_upper += 1 + (1 if (term or trunc) else 0)
         n = len(t.order)
         if n == self.N:
@@ -285,8 +287,6 @@ class BufferRun:
             reload = (i == len(self.sims) - 1)
             try:
                 s.restart(scratch, reload=reload)
-            except API_ERRORS:
-                raise
             except Exception as e:
                 self.res.violate("C19.a", self.site, f"pickle round trip raised {type(e).__name__}: {e}")
                 self.stopped = True
@@ -424,6 +424,7 @@ class BufferRun:
         tids, task = self.check_flat_rows(fields, task)
         if task is not None:
             self.tasks[task].last_batch = tids
+            self.tasks[task].adds_since_sample = 0
             self.last_task = task
         self.check_weights(w, tids, beta)
         if self.restarted:
@@ -461,6 +462,7 @@ class BufferRun:
                         self.res.log.add("enum-task-mismatch", st, task)
                     tids, _ = self.check_flat_rows(r[0], st)
                     self.tasks[st].last_batch = tids
+                    self.tasks[st].adds_since_sample = 0
                     self.last_task = st
                     high = g.last_high
                     seen += tids[: max(0, min(B, high - off))]
@@ -494,6 +496,7 @@ class BufferRun:
             tids, _ = self.check_flat_rows(r[0], st)
             self.check_weights(r[1], tids, 0.5)
             self.tasks[st].last_batch = tids
+            self.tasks[st].adds_since_sample = 0
             self.last_task = st
             for t in tids:
                 if t is None:
@@ -546,6 +549,17 @@ class BufferRun:
         t = self.tasks[task]
         tids = t.last_batch
         if any(x is None for x in tids):
+            return
+        # Interpretation (DESIGN §4 C08): the batch must still be stored. If a sampled
+        # transition was overwritten between sample and update, "the transitions of
+        # the most recently sampled batch" no longer exist and the update is not generated.
+        if self.family == "flat":
+            stale = any(x not in t.retained() for x in tids)
+        else:
+            stale = t.adds_since_sample > 0
+        if stale:
+            self.res.log.add("update-skip-stale-batch")
+            self.res.probe("update_skipped_stale_batch")
             return
         vals = np.asarray([values[x % len(values)] for x in tids], dtype=float)
         out = self.call("update", "update_priority", vals)
@@ -674,6 +688,7 @@ class BufferRun:
             self.V("reduced", f"reduced view differs from the full view of the same windows (h={h}): obs {r['observation'].shape} vs {f['observation'].shape}")
         if st is not None:
             self.tasks[st].last_batch = starts
+            self.tasks[st].adds_since_sample = 0
             self.last_task = st
         self.res.probe("windows_checked", nB)
         return starts, st
@@ -697,6 +712,7 @@ class BufferRun:
                     tk = self.rows[s]["task"]
             if tk is not None:
                 self.tasks[tk].last_batch = starts
+                self.tasks[tk].adds_since_sample = 0
                 self.last_task = tk
             self.res.probe("windows_checked", len(starts))
 
@@ -939,6 +955,11 @@ def gen_ops(rng, family, prio, n_tasks, capacity, horizon, n_ops, weights):
         elif r < 0.80 and enabled["law"]:
             ops.append(["law", rng.choice([1, 2, 4, 8]), rng.choice([2, 4])])
         elif r < 0.88 and enabled["update"]:
+            if rng.random() < 0.75:
+                B = rng.choice([1, 2, 3, 4, 8])
+                units = [min(max(rng.random(), 1e-12), 1 - 1e-12) for _ in range(B)]
+                ops.append(["sample", B, units, rng.randint(0, 3), rng.randint(1, horizon), True,
+                            rng.choice([0.0, 0.4, 1.0]) if weights else None])
             ops.append(["update", rng.choice(PRIO_SETS)])
         elif r < 0.90 and enabled["reset_max"]:
             ops.append(["reset_max"])
